@@ -36,6 +36,8 @@ pub fn run(prop: &str, ctx: &mut Ctx) -> bool {
                 ctx.tr.scenario("c03-soak-n4-direct"); qrig::soak::<4>(ctx, 0, 70_000);
                 ctx.tr.scenario("c03-soak-n8-indirect-eventidx"); qrig::soak::<8>(ctx, 3, 70_000);
             }
+            // C04 at driver level: a driver that keeps several requests outstanding under tokens (sound PCM)
+            if prop == "C04" { c20_snd::run_nb(ctx); }
         }
         "C14" => c14::run(ctx),
         "C15" => c15::run(ctx),
